@@ -3,16 +3,17 @@
 import json, os, subprocess, sys, shutil, glob, re, tempfile
 src = sys.argv[1] if len(sys.argv) > 1 else '/tmp/mut/out'
 rnd = sys.argv[2] if len(sys.argv) > 2 else 'round1'
+confdir = sys.argv[3] if len(sys.argv) > 3 else '/tmp/mut/confirm'
 os.chdir('/verif')
 for d in sorted(glob.glob(src + '/C*/[0-9]*')):
     if not os.path.exists(d + '/patch.diff') or not os.path.exists(d + '/meta.json'):
         continue
     pid = os.path.basename(os.path.dirname(d)); n = os.path.basename(d)
-    conf = '/tmp/mut/confirm/%s-%s.txt' % (pid, n)
+    conf = '%s/%s-%s.txt' % (confdir, pid, n)
     ctext = open(conf).read() if os.path.exists(conf) else ''
     if 'confirmed=yes' not in ctext:
         print(pid, n, 'not confirmed; skipped'); continue
-    name = '%s-%s%s' % (pid, rnd[0] + rnd[-1] if rnd != 'round1' else '', n) if rnd != 'round1' else '%s-%s' % (pid, n)
+    name = '%s-%s' % (pid, n) if rnd == 'round1' else '%s-%s-%s' % (pid, rnd, n)
     dst = '/verif/seeded/' + name
     os.makedirs(dst, exist_ok=True)
     shutil.copy(d + '/patch.diff', dst + '/patch.diff')
@@ -52,7 +53,7 @@ for d in sorted(glob.glob(src + '/C*/[0-9]*')):
             'own_property_rules_fired': own,
             'all_rules_fired': rules,
             'failing_properties': props,
-            'detected_by_own_property': bool(own),
+            'detected_by_own_property': pid in props,
         },
     }
     json.dump(newmeta, open(dst + '/meta.json', 'w'), indent=1)
